@@ -25,6 +25,10 @@ type settings struct {
 	Engine   string `json:"engine"`          // "compiler" | "interpreter"
 	Limit    uint32 `json:"limit,omitempty"` // WithMemoryLimitPages; 0 = wazero's default (65536)
 	V1       bool   `json:"v1,omitempty"`    // WithCoreFeatures(api.CoreFeaturesV1)
+	// Feat: the experimental core feature the PROGRAM needs on top of WebAssembly 2.0 ("" none, "tail"
+	// tail calls, "threads" atomics). Semantic: set from the program in newRT for every runtime of the
+	// program (baseline and point alike) unless the runtime is a CoreFeaturesV1 one.
+	Feat string `json:"feat,omitempty"`
 	CapMax   bool   `json:"capmax,omitempty"`
 	Alloc    bool   `json:"alloc,omitempty"`
 	NoDebug  bool   `json:"nodebug,omitempty"`
@@ -44,8 +48,15 @@ func (s settings) config(cache wazero.CompilationCache) wazero.RuntimeConfig {
 	if s.Limit != 0 {
 		c = c.WithMemoryLimitPages(s.Limit)
 	}
-	if s.V1 {
+	switch {
+	case s.V1:
 		c = c.WithCoreFeatures(api.CoreFeaturesV1)
+	case s.Feat == "tail":
+		c = c.WithCoreFeatures(api.CoreFeaturesV2 | experimental.CoreFeaturesTailCall)
+	case s.Feat == "threads":
+		c = c.WithCoreFeatures(api.CoreFeaturesV2 | experimental.CoreFeaturesThreads)
+	case s.Feat != "":
+		panic("unknown feature " + s.Feat)
 	}
 	if s.CapMax {
 		c = c.WithMemoryCapacityFromMax(true)
@@ -196,6 +207,7 @@ func (r *rtRun) add(format string, a ...any) { r.tr = append(r.tr, fmt.Sprintf(f
 
 // newRT creates the runtime and its "env" host module.
 func newRT(p *program, s settings, cache wazero.CompilationCache) *rtRun {
+	s.Feat = p.Feat
 	r := &rtRun{s: s}
 	ctx, cancel := context.WithCancel(context.Background()) // cancellable but never cancelled while the guest runs
 	r.cancel = cancel
